@@ -4,6 +4,7 @@ Shared machinery for the traversal properties C06 / C07 / C08.
 Case: {"g": graph desc, "uni": None | [member idx,...], "start": s,
        "d": 0..2, "u": 0..2, "via": filter spec | None, "res": int mask | None}
 """
+from eglib import h
 import contextlib
 
 from hypothesis import strategies as st
@@ -158,7 +159,7 @@ class Setup:
         return make(lambda e, v: f(li[id(e)], vi.get(id(v), -1)))
 
     def kw(self, res=False):
-        k = dict(direction_sensitive=self.d, unknown_handling=self.u, ff_via=self.ff)
+        k = h.kw(self.d, self.u, ff_via=self.ff)
         if res:
             k["ff_result"] = self.rf
         return k
